@@ -412,5 +412,42 @@ theorem rootOn_rootArr {h : Heap α} {sid : Nat} {st : List α} {D : Idx} (hne :
   · simp [fromStore, rootArr, storeOf, hs, root_eq D 0 hne, bind, Except.bind, pure, Except.pure]
   · exact ⟨⟨st, hs, by simp [rootArr]⟩, by simp [rootArr], hf, by simp [rootArr]⟩
 
+/-- the preamble of `Run` on root arrays -/
+theorem runDims_eq {inputs states outputs : Arr} {nIn nI T N nS M nO T' : Int}
+    (hi : inputs.v = rootView [nIn, nI, T] 0) (hs : states.v = rootView [N, nS] 0)
+    (ho : outputs.v = rootView [M, nO, T'] 0) :
+    runDims inputs states outputs = .ok
+      { numCells := N, numStates := nS, numInputSequences := nIn, inputLen := T, cellInputsShape := [nI, T],
+        outputStepSlice := [1, 1, 1], outputSizeSlice := [1, 1, T], statesSizeSlice := [1, nS],
+        inputsSizeSlice := [1, nI, T] } := by
+  simp [runDims, View.len, hi, hs, ho, rootView, setAt, View.newIndex, View.ndims, uniform, bind, Except.bind, pure,
+    Except.pure]
+
+/-! ### arithmetic of row-major positions; frame of a flat read -/
+
+theorem row_lt {n a b s s' : Int} (hn : 1 ≤ n) (hab : a < b) (hs : s < n) (hs' : 0 ≤ s') : a * n + s < b * n + s' := by
+  have h1 : (a + 1) * n ≤ b * n := Int.mul_le_mul_of_nonneg_right (by omega) (by omega)
+  have e : (a + 1) * n = a * n + n := by ring
+  omega
+
+theorem row_ne {n a b s s' : Int} (hn : 1 ≤ n) (hab : a ≠ b) (hs0 : 0 ≤ s) (hs : s < n) (hs0' : 0 ≤ s') (hs' : s' < n) :
+    a * n + s ≠ b * n + s' := by
+  rcases Int.lt_or_gt_of_ne hab with h | h
+  · have := row_lt hn h hs hs0'; omega
+  · have := row_lt hn h hs' hs0; omega
+
+theorem row_nonneg {n a s : Int} (hn : 1 ≤ n) (ha : 0 ≤ a) (hs : 0 ≤ s) : 0 ≤ a * n + s := by
+  have := Int.mul_nonneg ha (by omega : (0 : Int) ≤ n); omega
+
+/-- reading element `t` of a flat view is unaffected by a storage write anywhere else -/
+theorem flat_get1_frame {h : Heap α} {sid : Nat} {base n : Int} (rv : RootOn h (flat sid base n) [n]) {t : Int}
+    (t0 : 0 ≤ t) (t1 : t < n) (u q : Nat) (v : α) (hne : u ≠ sid ∨ q ≠ (base + t).toNat) :
+    get1 (setStore h u q v) (flat sid base n) t = get1 h (flat sid base n) t := by
+  obtain ⟨x, hx, _, hg⟩ := rv.flat_get t0 t1
+  obtain ⟨x', hx', _, hg'⟩ := (rv.sameShape (sameShape_setStore h u q v)).flat_get t0 t1
+  rw [cell_setStore, if_neg (by rintro ⟨e1, e2⟩; rcases hne with e | e; exact e e1.symm; exact e e2.symm), hx] at hx'
+  injection hx' with hx'
+  rw [hg, hg', hx']
+
 end
 end OW.WrapperNd
